@@ -52,6 +52,16 @@ func c03Behaviours() []c03Behaviour {
 				c.RespMsgs = append(c.RespMsgs, MkMsg(`{"name":"second","num":2}`))
 			}
 		}},
+		{"resp-compressed-though-nothing-accepted", func(c *mxCall, _ string) {
+			// the client advertises no response compression; the backend compresses anyway (in HTTP
+			// "no Accept-Encoding" allows any coding, so a REST or Connect backend legitimately may)
+			c.Accept = nil
+			c.Mutate = func(sr *wire.ServerResp, rep *world.Reply) {
+				if sr != nil {
+					sr.Compression = "gzip"
+				}
+			}
+		}},
 		{"error-before-messages", func(c *mxCall, _ string) { c.RespMsgs, c.End = nil, errEnd }},
 		{"error-trailers-only", func(c *mxCall, _ string) { c.RespMsgs, c.End, c.TrailersOnly = nil, errEnd, true }},
 		{"error-after-messages", func(c *mxCall, shape string) {
@@ -343,6 +353,10 @@ func init() {
 		}
 		for _, cm := range cr.Complaints {
 			c.Fail("C03."+cm.Clause, "%s\n%s", cm.Detail, desc())
+		}
+		if call.Accept == nil && b.Client.form != wire.REST && cr.Compression != "" && cr.Compression != "identity" {
+			// (a REST client without Accept-Encoding accepts any coding; the RPC protocols only what was advertised)
+			c.Fail("C03.resp.compression-not-advertised", "the response declares compression %q; the client advertised none\n%s", cr.Compression, desc())
 		}
 		backendSentEmptyCompressed := func() bool {
 			if obs.SrvResp == nil {
